@@ -177,7 +177,9 @@ def run(ctx):
                         ctx.count('missing_segment:in-later-instance-after-sibling-loop')
                     judge(ctx, f, case, sigs)
                     n += 1
-    ctx.case(n=n, sigs=sorted(sigs), sample={'fault_kinds': faults.ALL_KINDS})
+                    ctx.sample({'map': e['file'], 'fault': {k2: v for k2, v in f.describe().items() if k2 in ('kind', 'level', 'codes', 'set_index', 'seg_id', 'seg_pos', 'ele_pos', 'sub_pos', 'value', 'node_path', 'note')},
+                                'faulty_segment': gen_doc.render_seg(f.doc.recs[f.rec_index].node.id, f.doc.recs[f.rec_index].vals) if f.rec_index is not None and f.rec_index < len(f.doc.recs) else None})
+    ctx.case(n=n, sigs=sorted(sigs))
 
 
 def replay(ctx, case):
